@@ -1,9 +1,152 @@
-(* C20 — struct copiers.  Only statements; proofs are `exact <lemma>` from proof/CopierProof.v. *)
-From Ekit Require Import Common CopierModel CopierProof.
+(* C20 — struct copiers copy every matching field faithfully and never panic.
+   Only statements here; every proof is `exact <lemma>` from proof/CopierProof*.v.
 
+   Universe (model/CopierModel.v): struct types over basic kinds, defined basic types,
+   named / unnamed nested structs, single and multi-level pointers, slices, maps,
+   time.Time, chan / array / func / interface; exported and unexported fields; no
+   embedded fields or tags.  Values are trees (no aliasing between destination pointers);
+   converters are pure functions returning a value of their declared Dst type
+   (`opt_ok`, Go's type system) or an error.  `has_type` = the Go value has that type. *)
+From Ekit Require Import Common CopierModel CopierProof CopierProof2 CopierProof3.
+
+(* NewReflectCopier[Src, Dst](opts...) returns a copier or an error for ALL type pairs
+   (struct or not) and all option lists: it never panics. *)
+Theorem constructor_total : forall st dt ps, new_reflect_copier st dt ps <> CPanic.
+Proof. exact constructor_total_lemma. Qed.
+Print Assumptions constructor_total.
+
+(* ... which was false before commit 79cd082: {F1 struct{F1 int}} -> {F1 int} *)
 Theorem copier_ctor_panics_refuted :
   exists st dt, is_struct_kind st = true /\ is_struct_kind dt = true /\
     new_reflect_copier_pinned st dt [] = CPanic /\
     new_reflect_copier st dt [] = CErr CKind.
 Proof. exact copier_ctor_panics_refuted_lemma. Qed.
 Print Assumptions copier_ctor_panics_refuted.
+
+(* CopyTo(src, dst, opts...) with a non-nil dst and Copy(src, opts...) never panic: for
+   every constructed copier, every (possibly nil) source, every destination value,
+   every default / per-call ignore set and converter set. *)
+Theorem copy_total : forall st dt ps c src dv cps,
+  new_reflect_copier st dt ps = COk c ->
+  Forall opt_ok ps -> Forall opt_ok cps ->
+  match src with None => True | Some sv => has_type st sv = true end ->
+  has_type dt dv = true ->
+  snd (reflect_copy_to c st dt src (Some dv) cps) <> SPanic /\
+  snd (reflect_copy c st dt src cps) <> SPanic.
+Proof. exact copy_total_lemma. Qed.
+Print Assumptions copy_total.
+
+(* The hypothesis "dst non-nil" is needed: CopyTo(src, nil) panics (reflect Set on the
+   unaddressable ValueOf(dst)) — reported to the lead as a candidate finding. *)
+Theorem copyto_nil_dst_panics : forall st dt ps c sv cps,
+  new_reflect_copier st dt ps = COk c ->
+  snd (reflect_copy_to c st dt (Some sv) None cps) = SPanic.
+Proof. exact copyto_nil_dst_panics_lemma. Qed.
+Print Assumptions copyto_nil_dst_panics.
+
+(* After a successful CopyTo the destination satisfies `post` (proof/CopierProof.v), field by
+   field of the destination type, recursively through nested structs and single pointers:
+   - unexported / ignored / no exported source field of that name / source field of
+     func-interface kind / nil source pointer: the destination field is UNTOUCHED;
+   - a registered converter: the field holds the converter's result on the source field;
+   - otherwise the field types are identical and the (allocated when nil) destination holds
+     the source's value if that value is non-zero or the destination held the zero value
+     (in particular if it was fresh), and keeps its old value if the source's value is zero.
+   The source is unchanged by construction (the model only returns a new destination; the
+   correspondence run compares the real source before and after every call).
+   `effective_options c cps` = per-call copy of the defaults, then the call's options. *)
+Theorem copy_spec : forall st dt ps c sv dv cps r,
+  new_reflect_copier st dt ps = COk c ->
+  Forall opt_ok ps -> Forall opt_ok cps ->
+  has_type st sv = true -> has_type dt dv = true ->
+  reflect_copy_to c st dt (Some sv) (Some dv) cps = (r, SOk) ->
+  exists dv', r = Some dv' /\ has_type dt dv' = true /\
+              post (effective_options c cps) st sv dt dv dv'.
+Proof. exact copy_spec_lemma. Qed.
+Print Assumptions copy_spec.
+
+(* a nil source pointer: success, destination untouched *)
+Theorem copy_nil_src : forall st dt ps c dv cps,
+  new_reflect_copier st dt ps = COk c ->
+  reflect_copy_to c st dt None (Some dv) cps = (Some dv, SOk).
+Proof. exact copy_nil_src_lemma. Qed.
+Print Assumptions copy_nil_src.
+
+(* options are cloned per call: the per-call copy behaves exactly like the defaults (and,
+   the model being functional, a call cannot change the copier it is given) *)
+Theorem default_options_cloned : forall o n,
+  in_ignore (copy_default_options o) n = in_ignore o n /\
+  find_conv (copy_default_options o) n = find_conv o n.
+Proof. exact (fun o n => conj (in_ignore_copy_default o n) (find_conv_copy_default o n)). Qed.
+Print Assumptions default_options_cloned.
+
+(* By the letter, "sets every exported, same-named, same-typed destination field to the
+   source's value" FAILS for a zero-valued source field and a non-fresh destination:
+   struct{F1 int}{0} copied into struct{F1 int}{5} succeeds and leaves 5. *)
+Theorem copyto_zero_skip_refuted :
+  exists st dt c sv dv dv',
+    new_reflect_copier st dt [] = COk c /\
+    has_type st sv = true /\ has_type dt dv = true /\
+    reflect_copy_to c st dt (Some sv) (Some dv) [] = (Some dv', SOk) /\
+    st = dt /\ sfield sv 0 = Some (VNum 0) /\ sfield dv' 0 = Some (VNum 5).
+Proof. exact copyto_zero_skip_refuted_lemma. Qed.
+Print Assumptions copyto_zero_skip_refuted.
+
+(* the plain recursive CopyTo(&src, &dst) never panics (non-nil pointers to structs) *)
+Theorem pure_copy_total : forall st dt sv dv,
+  has_type st sv = true -> has_type dt dv = true ->
+  snd (pure_copy_to (Ptr st) (VPtr (Some sv)) (Ptr dt) (VPtr (Some dv))) <> SPanic.
+Proof. exact pure_copy_total_lemma. Qed.
+Print Assumptions pure_copy_total.
+
+(* On the fragment `frag_ty` (structs built from basic kinds, defined basic types, slices,
+   maps, nested structs and pointers to them: no time.Time, no chan/array/func/interface)
+   the two copiers agree on a fresh destination whenever both succeed.  (They do NOT
+   succeed on the same pairs: see copiers_differ_on_ptr_vs_value.) *)
+Theorem copiers_agree_on_fresh : forall st dt c sv r1 r2,
+  frag_ty st = true -> frag_ty dt = true ->
+  has_type st sv = true ->
+  new_reflect_copier st dt [] = COk c ->
+  reflect_copy c st dt (Some sv) [] = (r1, SOk) ->
+  pure_copy_to (Ptr st) (VPtr (Some sv)) (Ptr dt) (VPtr (Some (zero_value dt))) = (r2, SOk) ->
+  r2 = VPtr r1.
+Proof. exact copiers_agree_on_fresh_lemma. Qed.
+Print Assumptions copiers_agree_on_fresh.
+
+Theorem copiers_differ_on_ptr_vs_value :
+  exists st dt c sv r,
+    frag_ty st = true /\ frag_ty dt = true /\ has_type st sv = true /\
+    new_reflect_copier st dt [] = COk c /\
+    snd (reflect_copy c st dt (Some sv) []) = SOk /\
+    pure_copy_to (Ptr st) (VPtr (Some sv)) (Ptr dt) (VPtr (Some (zero_value dt))) = (r, SErr CKind).
+Proof. exact copiers_differ_lemma. Qed.
+Print Assumptions copiers_differ_on_ptr_vs_value.
+
+(* non-vacuity: a pair in the fragment with nested structs, pointers, a slice, an ignored
+   field, on which both copiers succeed and agree; and the converter path *)
+Example c20_nonvacuous :
+  let inner := Struct None [(1, true, Basic KString); (2, true, Ptr (Basic KInt))] in
+  let st := Struct (Some 1) [(1, true, Basic KInt); (2, true, Ptr inner);
+                             (3, true, Slice (Basic KInt)); (4, false, Basic KInt)] in
+  let dt := Struct (Some 2) [(3, true, Slice (Basic KInt)); (2, true, Ptr inner);
+                             (9, true, Basic KInt); (1, true, Basic KInt)] in
+  let sv := VStruct [VNum 7; VPtr (Some (VStruct [VStr [104]; VPtr (Some (VNum 3))]));
+                     VSlice (Some [VNum 1; VNum 2]); VNum 9] in
+  let want := VStruct [VSlice (Some [VNum 1; VNum 2]);
+                       VPtr (Some (VStruct [VStr [104]; VPtr (Some (VNum 3))]));
+                       VNum 0; VNum 7] in
+  frag_ty st = true /\ frag_ty dt = true /\ has_type st sv = true /\
+  (exists c, new_reflect_copier st dt [] = COk c /\
+             reflect_copy c st dt (Some sv) [] = (Some want, SOk)) /\
+  pure_copy_to (Ptr st) (VPtr (Some sv)) (Ptr dt) (VPtr (Some (zero_value dt)))
+    = (VPtr (Some want), SOk) /\
+  (exists c, new_reflect_copier st dt [OIgnore [1]; OConvert 3 (Some (mk_conv (Slice (Basic KInt)) (Slice (Basic KInt)) (FConst (VSlice (Some [])))))] = COk c /\
+             reflect_copy c st dt (Some sv) [] =
+               (* IgnoreFields is by NAME at every level: the nested F1 is ignored too *)
+               (Some (VStruct [VSlice (Some []);
+                               VPtr (Some (VStruct [VStr []; VPtr (Some (VNum 3))]));
+                               VNum 0; VNum 0]), SOk)).
+Proof.
+  cbv zeta. repeat split; try (vm_compute; reflexivity);
+    eexists; split; vm_compute; reflexivity.
+Qed.
